@@ -35,6 +35,11 @@ Definition weight_mask_net (w : list nat) (nss : list nat) : net :=
   let r := S (fold_right Nat.max O w) in
   on_last (fun c => rmulM c (sel_cols w) 1) (one_hot_net r nss).
 
+(* tn.weight_mask: weight = torch.unique(weight) first (a weight listed twice counts once; the sorted order
+   of torch.unique is irrelevant to the column sum) *)
+Definition weight_mask_u (w : list nat) (nss : list nat) : net :=
+  weight_mask_net (nodup Nat.eq_dec w) nss.
+
 (* weight: core = eye(2) repeated, core[1, :, 0] = arange(ns);  first row 1, last column 0 *)
 Definition acc_core (ns : nat) : score K :=
   mkScore 2 2 ns (fun s p q => if Nat.eqb p q then 1 else if (Nat.eqb p 1 && Nat.eqb q 0)%bool then of_nat s else 0).
@@ -58,7 +63,7 @@ Definition weight_net (nss : list nat) : net :=
 
 End Automata.
 Arguments shift_core {K}. Arguments shift_first {K}. Arguments one_hot_net {K}.
-Arguments of_nat {K}. Arguments sel_cols {K}. Arguments on_last {A}. Arguments weight_mask_net {K}.
+Arguments of_nat {K}. Arguments sel_cols {K}. Arguments on_last {A}. Arguments weight_mask_net {K}. Arguments weight_mask_u {K}.
 Arguments acc_core {K}. Arguments acc_first {K}. Arguments acc_last {K}. Arguments acc_only {K}.
 Arguments weight_tail {K}. Arguments weight_net {K}.
 
